@@ -212,28 +212,46 @@ def build_expr(spec):
 
 # ------------------------------------------------------------------- tracer
 class Trace:
-    """records (term.sympy, term.target) at every call of the closure
-    simplify_term_unitary; groups[k] = recursion levels for the k-th term of
-    the input expression"""
+    """records the tree of calls of the closure simplify_term_unitary:
+    roots[k] = call made for the k-th term of the input expression; a node is
+    {"sym": term.sympy, "target": term.target, "kids": [calls made from it]}"""
 
     def __init__(self):
-        self.groups = []
+        self.roots = []
+        self._stack = []
 
     def _prof(self, frame, event, arg):
-        if event == "call" and \
-                frame.f_code.co_name == "simplify_term_unitary":
+        if frame.f_code.co_name != "simplify_term_unitary":
+            return
+        if event == "call":
             t = frame.f_locals.get("term")
-            back = frame.f_back.f_code.co_name if frame.f_back else ""
-            rec = (t.sympy, tuple(t.target))
-            if back == "simplify_term_unitary" and self.groups:
-                self.groups[-1].append(rec)
+            node = {"sym": t.sympy, "target": tuple(t.target), "kids": []}
+            if self._stack:
+                self._stack[-1]["kids"].append(node)
             else:
-                self.groups.append([rec])
+                self.roots.append(node)
+            self._stack.append(node)
+        elif event == "return":
+            if self._stack:
+                self._stack.pop()
 
     def run(self, fn, *a, **kw):
         old = sys.getprofile()
+        self._stack = []
         sys.setprofile(self._prof)
         try:
             return fn(*a, **kw)
         finally:
             sys.setprofile(old)
+            self._stack = []
+
+
+def preorder(node):
+    out = [node]
+    for k in node["kids"]:
+        out += preorder(k)
+    return out
+
+
+def depth(node):
+    return 1 + max([depth(k) for k in node["kids"]], default=0)
